@@ -450,7 +450,7 @@ def rules_c20(ctx):
                 for h in nd.get('handlers', []):
                     ht = f.unit.tstr(h['t']) if h['t'] else '...'
                     catches = (h['t'] == 0) or any(x in ht for x in ('invalid_argument', 'logic_error', 'std::exception'))
-                    rets = [r for r in f.walk(h['body']) if f.n(r)['c'] == 'ReturnStmt']
+                    rets = [r for r in f.walk(h['body']) if f.n(r)['c'] in ('ReturnStmt', 'InlinedReturn')]
                     retnull = bool(rets) and all(strip_cast(f.term(f.n(r)['ch'][0], inline=True)) in (('null',), ('lit', 0)) for r in rets)
                     if catches and retnull:
                         hok = True
